@@ -59,6 +59,12 @@ func c04Scenarios(cfg runCfg) []Scenario {
 	if cfg.shard%8 == 5 {
 		hist = append(hist, Scenario{Family: "big-data", Seed: mix(cfg.seed, 4, 45, uint64(cfg.shard))})
 	}
+	// one generator instance: recordings, then thousands of draws that give up deep inside it, then the same recordings
+	for j := 0; j < cfg.n(32, 10); j++ {
+		if cfg.mine(j) {
+			hist = append(hist, Scenario{Family: "abuse-history", Seed: mix(cfg.seed, 4, 47, uint64(j))})
+		}
+	}
 	// every rejection-heavy regexp, as a string and as a byte slice, is recorded, pruned and replayed on its own
 	for j := 0; j < 2*len(rejRegexps); j++ {
 		if cfg.mine(j) {
@@ -130,6 +136,63 @@ func c04Run(t *testing.T, sc Scenario, res *Result) {
 	mirror := sc.X["mirror"] == "1"
 	r := newRng(sc.Seed, 0xc04)
 	switch sc.Family {
+	case "abuse-history":
+		// A generator is an immutable specification: what ONE instance draws for a seed does not depend on how many
+		// draws gave up inside it before (each of those unwinds, by a panic, through all of its frames).
+		levels := r.between(6, 16)
+		leaf := rapid.IntRange(0, 99).Filter(func(v int) bool { return v%9 == 8 }).AsAny() // gives up in a good part of the draws
+		g, desc := deepChain(r, leaf, levels)
+		var vals []string
+		prop := func(t *rapid.T) {
+			vals = append(vals, canon(g.Draw(t, "a")))
+			vals = append(vals, canon(g.Draw(t, "b")))
+		}
+		type rec struct {
+			kind string
+			vals string
+			data []uint64
+		}
+		record := func(seed uint64) rec {
+			vals = vals[:0]
+			vs, out := rapid.VerifRecord(seed, prop)
+			return rec{out.Kind, strings.Join(vals, " "), vs.Data}
+		}
+		const nkeep = 24
+		var before []rec
+		for k := 0; k < nkeep; k++ {
+			before = append(before, record(sc.Seed%1000003+uint64(k)))
+			res.inc("recordings")
+		}
+		gaveUp := 0
+		for k := 0; k < 2500; k++ {
+			if record(mix(sc.Seed, 0xab, uint64(k))).kind == "invalid" {
+				gaveUp++
+			}
+		}
+		// also by overruns: replays of truncated recordings end inside the chain
+		for k := 0; k < 200; k++ {
+			d := before[k%nkeep].data
+			if len(d) > 1 {
+				vals = vals[:0]
+				rapid.VerifReplay(d[:1+k%(len(d)-1)], prop)
+			}
+		}
+		res.count("abuse_draws_that_gave_up", int64(gaveUp))
+		res.inc("abuse_histories")
+		res.nontrivial("abuse/" + desc)
+		for k := 0; k < nkeep; k++ {
+			after := record(sc.Seed%1000003 + uint64(k))
+			if after.kind != before[k].kind || after.vals != before[k].vals || !wordsEqual(after.data, before[k].data) {
+				res.violate(sc, "c04/abuse-history", fmt.Sprintf("one generator instance drew other values for seed %d after %d draws had given up inside it: %s [%s] before, %s [%s] after", sc.Seed%1000003+uint64(k), gaveUp, before[k].kind, clip(before[k].vals, 80), after.kind, clip(after.vals, 80)), map[string]any{"generator": desc})
+				return
+			}
+			vals = vals[:0]
+			o := rapid.VerifReplay(before[k].data, prop)
+			if o.Kind != before[k].kind || strings.Join(vals, " ") != before[k].vals {
+				res.violate(sc, "c04/abuse-history", fmt.Sprintf("replaying the bits recorded for seed %d gave other values after %d draws had given up inside the same generator instance", sc.Seed%1000003+uint64(k), gaveUp), map[string]any{"generator": desc})
+				return
+			}
+		}
 	case "big-data":
 		// test case #k of a long, data-heavy Check draws exactly what its own seed draws in a run of its own: nothing a
 		// Check keeps across its test cases (counters, buffers) may show up in the values
